@@ -28,6 +28,7 @@ struct GenCfg {
   bool fracWeights = false;
   int maxLevels = 8;
   int maxMagPow = 22;  // coordinates stay within 2^maxMagPow when scaled
+  bool wideRows = false;  // rows thousands of row heights wide (many density bins)
 };
 
 // Swarm configuration: each run first decides which features exist at all.
@@ -56,6 +57,11 @@ GenCfg swarm(Rng &r, int tier) {
   c.offsetsOutside = r.chance(0.25);
   c.fracWeights = r.chance(0.3);
   c.maxLevels = r.chance(0.2) ? 2 : 8;
+  c.wideRows = r.chance(0.05);
+  if (c.wideRows) {
+    c.maxLevels = (int)r.range(1, 3);
+    c.bigScale = r.chance(0.7);
+  }
   return c;
 }
 
@@ -87,6 +93,7 @@ Built genCircuit(Rng &r, const GenCfg &cfg) {
   int nL = (int)r.range(1, cfg.maxLevels);
   int minSeg = cfg.c06Domain ? 4 * Hb : 1;
   long long Wb = std::max<long long>(minSeg, (long long)Hb * r.range(4, 28) + r.range(0, Hb));
+  if (cfg.wideRows) Wb = (long long)Hb * r.range(200, 1500);
   long long ox = r.range(-40, 40) * Hb, oy = r.range(-40, 40) * Hb;
   if (r.chance(0.3)) {
     ox = 0;
@@ -542,6 +549,40 @@ Op clientOp(Rng &r) {
   return op;
 }
 
+// Rows thousands of row heights wide mean thousands of density bins: keep the
+// number of global placement steps small there so that a run stays short.
+void tame(Plan &p, const GenCfg &cfg) {
+  bool big = cfg.wideRows || p.circuit.cells.size() > 60;
+  for (auto &op : p.ops) {
+    if (op.kind != OP_GLOBAL) continue;
+    if (big || cfg.bigScale) op.params.byEffort = 0;  // the int overloads run the default 400 steps
+    if (cfg.bigScale) {
+      // the transportation solver of the rough legalizer is very slow when cell areas are
+      // around 2^30 and the reoptimisation windows are large: keep windows small there
+      // (performance is not a property; this only keeps simulated runs short)
+      if (op.params.effort > 2) op.params.effort = 1 + (op.params.effort % 2);
+      for (auto &kv : op.params.ov) {
+        if (kv.first == "rl.squareReoptSize") kv.second = std::min(kv.second, 2.0);
+        if (kv.first == "rl.squareReoptOverlap") kv.second = 1.0;
+        if (kv.first == "rl.lineReoptSize" && kv.second > 4) { kv.second = 4; }
+        if (kv.first == "rl.lineReoptOverlap") kv.second = std::min(kv.second, 1.0);
+        if (kv.first == "rl.diagReoptSize" && kv.second > 3) { kv.second = 3; }
+        if (kv.first == "rl.diagReoptOverlap") kv.second = std::min(kv.second, 1.0);
+      }
+    }
+    if (!cfg.wideRows) continue;
+    bool found = false;
+    for (auto &kv : op.params.ov)
+      if (kv.first == "g.maxNbSteps") {
+        kv.second = std::min(kv.second, 3.0);
+        found = true;
+      }
+    if (!found) op.params.ov.emplace_back("g.maxNbSteps", 3.0);
+    for (auto &kv : op.params.ov)
+      if (kv.first == "g.nbInitialSteps") kv.second = std::min(kv.second, 1.0);
+  }
+}
+
 // --------------------------------------------------------------- profiles --
 Plan base(const std::string &profile, uint64_t seed) {
   Plan p;
@@ -667,6 +708,7 @@ Plan genLegalization(const std::string &profile, uint64_t seed, int tier) {
       p.ops.push_back(c);
     }
   }
+  tame(p, cfg);
   return p;
 }
 
@@ -691,6 +733,7 @@ Plan genDetailed(const std::string &profile, uint64_t seed, int tier) {
     p.ops.push_back(perturbOp(ro, b.H));
     p.ops.push_back(stageOp(ro, 2, ro.chance(0.75), ro.chance(0.3), inBand));
   }
+  tame(p, cfg);
   return p;
 }
 
@@ -709,6 +752,7 @@ Plan genGlobal(const std::string &profile, uint64_t seed, int tier) {
     p.ops.push_back(perturbOp(ro, b.H));
     p.ops.push_back(stageOp(ro, 0, ro.chance(0.85), false, true));
   }
+  tame(p, cfg);
   return p;
 }
 
@@ -764,6 +808,7 @@ Plan genFrame(const std::string &profile, uint64_t seed, int tier) {
     if (ro.chance(0.2)) p.ops.push_back(perturbOp(ro, b.H));
     if (ro.chance(0.12)) p.ops.push_back(clientOp(ro));
   }
+  tame(p, cfg);
   return p;
 }
 
@@ -816,6 +861,7 @@ Plan genCrash(const std::string &profile, uint64_t seed, int tier) {
     p.ops.push_back(stageOp(ro, 0, ro.chance(0.3), false, true));
     p.ops.push_back(stageOp(ro, 2, ro.chance(0.3), reord, ro.chance(0.5)));
   }
+  tame(p, cfg);
   return p;
 }
 
@@ -875,6 +921,7 @@ Plan genC08(const std::string &profile, uint64_t seed, int tier) {
     v.stdoutBad = rv.chance(0.1) ? 1 : 0;
     p.variants.push_back(v);
   }
+  tame(p, cfg);
   return p;
 }
 
@@ -927,6 +974,7 @@ Plan genProtocol(const std::string &profile, uint64_t seed, int tier) {
       p.ops.push_back(c);
     }
   }
+  tame(p, cfg);
   return p;
 }
 
@@ -966,6 +1014,7 @@ Plan genRelegalize(const std::string &profile, uint64_t seed, int tier) {
     p.ops.push_back(stageOp(ro, 1, false, false, !all));
     p.ops.push_back(stageOp(ro, 1, false, false, !all));
   }
+  tame(p, cfg);
   return p;
 }
 
@@ -1026,6 +1075,7 @@ Plan genBadCalls(const std::string &profile, uint64_t seed, int tier) {
       p.ops.push_back(c);
     }
   }
+  tame(p, cfg);
   return p;
 }
 
@@ -1046,6 +1096,7 @@ Plan genHpwl(const std::string &profile, uint64_t seed, int tier) {
   int stage = 1 + (int)ro.below(2);
   p.ops.push_back(stageOp(ro, stage, true, ro.chance(0.2), true));
   if (ro.chance(0.5)) p.ops.push_back(stageOp(ro, 0, true, false, true));
+  tame(p, cfg);
   return p;
 }
 
